@@ -636,6 +636,11 @@ func didDomains(e *domEnv, thorough bool) []*msgDom {
 				d.AssertionMethods = []didtypes.VerificationRelationship{didtypes.NewVerificationRelationship(d.VerificationMethods[0].Id)}
 			}
 		})},
+		{Label: "assertion-ref-last-vm", Odd: true, Set: withDoc(func(d *didtypes.DIDDocument) {
+			if n := len(d.VerificationMethods); n > 0 {
+				d.AssertionMethods = []didtypes.VerificationRelationship{didtypes.NewVerificationRelationship(d.VerificationMethods[n-1].Id)}
+			}
+		})},
 		{Label: "assertion-ref-to-embedded-auth-method", Odd: true, Set: withDoc(func(d *didtypes.DIDDocument) {
 			// resolves only if the authentication list embeds a method "ded" - which is NOT in verificationMethod
 			d.AssertionMethods = []didtypes.VerificationRelationship{ref(d, "ded")}
@@ -674,6 +679,15 @@ func didDomains(e *domEnv, thorough bool) []*msgDom {
 			d.Services = []*didtypes.Service{{Id: "s", Type: "t", ServiceEndpoint: "e"}, {Id: "s2", Type: "t", ServiceEndpoint: ""}}
 		})},
 	}}
+	// well-known service types with endpoints that are text but not URLs (no rule restricts them: they are accepted as they are)
+	for _, ty := range []string{"LinkedDomains", "DIDCommMessaging"} {
+		for _, ep := range [][2]string{{"bad-port", "https://example.org:port"}, {"unclosed-bracket", "https://[::1"}, {"blank-in-host", "https://exa mple.org"}, {"colon", ":"}, {"control-char", "https://example.org/\x7f\x01"}, {"percent", "https://example.org/%zz"}} {
+			ty, ep := ty, ep
+			svcField.Classes = append(svcField.Classes, fclass{Label: ty + "+" + ep[0], Odd: true, Set: withDoc(func(d *didtypes.DIDDocument) {
+				d.Services = []*didtypes.Service{{Id: "s", Type: ty, ServiceEndpoint: ep[1]}}
+			})})
+		}
+	}
 	sigField := fdom{Name: "signature", Classes: []fclass{
 		{Label: "64bytes", Set: func(m sdk.Msg) { setSig(m, bytes.Repeat([]byte{1}, 64)) }},
 		{Label: "nil", Odd: true, Set: func(m sdk.Msg) { setSig(m, nil) }},
